@@ -87,6 +87,13 @@ def f_placement(case):
         (g.forward if d == 'f' else g.backward)(obj2)
         want = (exp if d == 'f' else inv).apply(L2, K2)
         C.expect_list(B.read_list(obj2), want, '%s%s on %d qubits, call #%d (%s) on the same gate object' % (name, tuple(q), N, step + 2, 'forward' if d == 'f' else 'backward'), 'action-reuse')
+    # a copy taken after use (lazily filled / compiled maps present) is the same gate
+    for variant in ('copy', 'compile-copy'):
+        g2 = (g.copy() if variant == 'copy' else g.compile().copy())
+        for d in 'bf':
+            obj3 = B.np_list(L, K)
+            (g2.forward if d == 'f' else g2.backward)(obj3)
+            C.expect_list(B.read_list(obj3), (exp if d == 'f' else inv).apply(L, K), '%s%s: %s of the used gate run %s' % (name, tuple(q), variant, 'forward' if d == 'f' else 'backward'), 'action-copy')
     f_now = ref.RefClifford(*B.read_list(g.forward_map))
     check(f_now.embed(q if name != 'CNOT' else sorted(q), N).key() == exp.key() if name != 'CNOT' else True, '%s: forward_map changed by running the gate' % name, 'map-changed')
     changed = ((el != L).any(-1) | (ek != K))
